@@ -178,6 +178,16 @@ func bitTest(v ssa.Value) (w ssa.Value, bit ssa.Value, ok bool) {
 			return bitTest(bo.X)
 		}
 	}
+	if bo.Op == token.EQL {
+		// (w>>i)&1 == 1
+		if c, isc := constOf(bo.Y); isc && c == 1 {
+			if inner, ok := stripConv(bo.X).(*ssa.BinOp); ok && inner.Op == token.AND {
+				if one, isc := constOf(inner.Y); isc && one == 1 {
+					return bitTest(bo.X)
+				}
+			}
+		}
+	}
 	if bo.Op != token.AND {
 		return nil, nil, false
 	}
